@@ -53,6 +53,13 @@ ClElems ==
     <<CClaimDelOp("iss")>>, <<[op |-> "CErrClear", c |-> 0]>> }
 RECURSIVE ClSeqs(_)
 ClSeqs(n) == IF n = 0 THEN {<<>>} ELSE { e \o t : e \in ClElems, t \in ClSeqs(n - 1) }
+\* a refusing callback that STAYS installed (the calls after a refusal still go through it), an accepting
+\* one, removal and the context-only update, between verifies
+LifeElems == { <<V(Good)>>, <<V([Good EXCEPT !.sig = Sig("flipbit", "HS256", KOct)])>>, <<CSetCbOp(<<CbRet(1)>>)>>, <<CSetCbOp(<<CbRet(0)>>)>>,
+               <<CSetCbOff>>, <<CSetCbCtxOp>>, <<[op |-> "CErrClear", c |-> 0]>> }
+RECURSIVE LifeSeqs(_)
+LifeSeqs(n) == IF n = 0 THEN {<<>>} ELSE { e \o t : e \in LifeElems, t \in LifeSeqs(n - 1) }
+LifeFam == [ab \in LifeElems \X LifeElems |-> { Pre3 \o ab[1] \o ab[2] \o q : q \in LifeSeqs(MaxLen - 2) }]
 ClaimFam == [ab \in ClElems \X ClElems |-> { Pre3 \o ab[1] \o ab[2] \o q : q \in ClSeqs(MaxLen - 2) }]
 
 G == [op |-> "Generate", b |-> 0, slot |-> 0, twin |-> 1]
@@ -72,7 +79,7 @@ BuilderNoKey == { <<LoadOp(<<KOct, KShort, K512>>), BNewOp>> \o q : q \in BdSeqs
 
 \* (no definition of the union of the families: TLC evaluates constant definitions eagerly, and the union
 \* of big unnormalised sets is quadratic - see ISpecFam in Interp.tla)
-MCSpec == ISpecP(InFam(CheckerFam) \/ InFam(NoKeyFam) \/ InFam(BuilderFam) \/ script \in BuilderNoKey \/ InFam(ClaimFam))
+MCSpec == ISpecP(InFam(CheckerFam) \/ InFam(NoKeyFam) \/ InFam(BuilderFam) \/ script \in BuilderNoKey \/ InFam(ClaimFam) \/ InFam(LifeFam))
 
 \* ---- on the specification: the configuration a verdict is computed from is
 \* exactly what the configuration calls made it; verify, generate and
@@ -83,7 +90,9 @@ CfgC(s, n, ck, rs) ==
   ELSE LET prev == CfgC(s, n - 1, ck, rs) op == s[n] IN
        CASE op.op = "CSetKey" -> LET key == ItemAt(rs, op.ring, op.key) IN
                                   IF RefSetKeyRet("checker", op.alg, key) = 0 THEN [prev EXCEPT !.alg = op.alg, !.key = key] ELSE prev
-         [] op.op = "CSetCb" -> [prev EXCEPT !.cb = op.prog, !.hascb = TRUE]
+         [] op.op = "CSetCb" -> IF "ctxonly" \in DOMAIN op THEN prev
+                                ELSE IF "prog" \in DOMAIN op THEN [prev EXCEPT !.cb = op.prog, !.hascb = TRUE]
+                                ELSE [prev EXCEPT !.cb = <<>>, !.hascb = FALSE]
          [] op.op = "CClaimSet" -> CkAfterClaimSet(prev, op.claim, op.val, ClaimSetRet(op.claim, op.val))
          [] op.op = "CClaimDel" -> CkAfterClaimDel(prev, op.claim, 0)
          [] OTHER -> prev
